@@ -184,8 +184,10 @@ example : Translated.AsciiSet_has (Translated.AsciiSet_remove Translated.AsciiSe
     `usize` (lengths are bounded by the length of the source). -/
 theorem translated_is_odd_match_eq (o c : Inline.Marker) :
     Translated.is_odd_match o.close o.length c.length c.open_ = Inline.isOddMatch o c := by
+  obtain ⟨_, ol, _, _, oc⟩ := o
+  obtain ⟨_, cl, _, co, _⟩ := c
   rw [Bool.eq_iff_iff]
-  simp [Translated.is_odd_match, Inline.isOddMatch] <;> omega
+  cases oc <;> cases co <;> simp [Translated.is_odd_match, Inline.isOddMatch] <;> omega
 
 example : Translated.is_odd_match true 1 2 false = true ∧ Translated.is_odd_match true 3 3 true = false ∧
     Translated.is_odd_match false 1 2 false = false := by decide
